@@ -67,7 +67,7 @@ def _kinds():
     }
 
 
-def execute(program, solve=True, oracle=True, horizon=None, stop_before_main=False):
+def execute(program, solve=True, oracle=True, horizon=None, stop_before_main=False, observe_phases=False):
     """Run a model program on the real classes.  Never raises for errors of the code under test:
     they are recorded in Built.error."""
     from sfc_models.models import Model, Country, Region
@@ -77,6 +77,8 @@ def execute(program, solve=True, oracle=True, horizon=None, stop_before_main=Fal
     kinds = _kinds()
     model = Model()
     b.model = model
+    b.observe_phases = observe_phases
+    b.phases = []
 
     def sec(ref):
         return b.sectors[ref]
@@ -208,10 +210,88 @@ def execute(program, solve=True, oracle=True, horizon=None, stop_before_main=Fal
     return b
 
 
+def _ledger_snapshot(b):
+    """Ledgers F / INC of every sector with financial assets as the sector objects hold them right now (local
+    names; names containing '__' are full names of other sectors' variables).  -> list of dicts with monomials
+    as lists of [full code of the owning sector, local name]."""
+    import tokenize
+    from io import BytesIO
+    out = []
+    for ref, s in sorted(b.sectors.items()):
+        if not getattr(s, 'HasF', False):
+            continue
+        rec = {'ref': ref}
+        for key in ('F', 'INC'):
+            rows = []
+            eq = s.EquationBlock[key]
+            for t in eq.TermList:
+                c = float(t.Constant)
+                if t.IsBlob and t.Term == '':
+                    continue
+                if c == 0.0 and not t.IsBlob:
+                    continue
+                names = []
+                for tok in tokenize.tokenize(BytesIO(t.Term.encode('utf-8')).readline):
+                    if tok.type == tokenize.NAME:
+                        if '__' in tok.string:
+                            fc, loc = tok.string.split('__', 1)
+                            names.append([fc, loc])
+                        else:
+                            names.append([s.FullCode, tok.string])
+                rows.append({'c': int(c) if c == int(c) else 0, 'int': c == int(c), 'f': names})
+            rec[key] = rows
+        out.append(rec)
+    return out
+
+
+def _instrument(b):
+    """Harness-side observation of the phases of Model.main() (nothing in the repository is touched): every
+    sector's _GenerateEquations and the model's cash-flow / exogenous phases are wrapped on the *instances*; after
+    each, the ledgers are recorded.  If the methods do not exist (a refactor), no phase is recorded and the
+    whole-of-main() validation still applies."""
+    m = b.model
+    b.phases = []
+
+    def snap(kind, **kw):
+        try:
+            b.phases.append(dict(kind=kind, ledgers=_ledger_snapshot(b), **kw))
+        except Exception as e:  # noqa - observation only
+            b.phases.append(dict(kind=kind, ledgers=[], unobservable='%s: %s' % (type(e).__name__, e), **kw))
+
+    for s in m.GetSectors():
+        orig = getattr(s, '_GenerateEquations', None)
+        if orig is None:
+            continue
+
+        def wrapped(orig=orig, s=s):
+            r = orig()
+            snap('Generate', fullcode=s.FullCode)
+            return r
+        try:
+            s._GenerateEquations = wrapped
+        except Exception:  # noqa
+            pass
+    for name, kind in (('_GenerateRegisteredCashFlows', 'CashFlows'), ('_ProcessExogenous', 'Exogenous')):
+        orig = getattr(m, name, None)
+        if orig is None:
+            continue
+
+        def wrapped2(orig=orig, kind=kind):
+            r = orig()
+            snap(kind)
+            return r
+        try:
+            setattr(m, name, wrapped2)
+        except Exception:  # noqa
+            pass
+
+
 def _main(b, solve):
     """Always through the public entry point Model.main() (a change to the pipeline inside main() must be seen)."""
     m = b.model
     b.main_ran = True
+    if getattr(b, 'observe_phases', False):
+        _instrument(b)
     try:
         m.main()
     finally:
